@@ -9,11 +9,11 @@ imported unchanged.  This file adds what the comparison with FreeType needs on t
                   engine/stack.rs + value_stack.rs (`push_inline_operands`, `dup`, `pop`, `clear`, `swap`, `DEPTH`),
                   arith.rs / logical.rs (`ADD SUB NEG LT GTEQ EQ AND OR NOT` through `apply_binary` / `apply_unary`),
                   storage.rs `op_rs` / `op_ws`, data.rs `op_scfs` (both vectors on the x axis), dispatch.rs
-                  `DEBUG => pop`, `AA => {}`, and the state setters that cannot fail.
+                  `DEBUG => pop`, `AA => pop` (fix 9926da4), and the state setters that cannot fail.
 * `prepStack`   — hint/instance.rs `HintInstance::reconfigure`: the font program and the control value program run on
-                  ONE engine with one `ValueStack`; `Engine::reset` does not clear it, so `prep` starts with whatever
-                  `fpgm` left behind (FreeType: `exec->top = 0` in `tt_size_run_prep`).  Same for the storage area
-                  (FreeType clears it in `tt_size_ready_bytecode`).
+                  ONE engine with one `ValueStack`; since fix 83e5236 `Engine::reset` clears it (`value_stack.clear()`),
+                  like FreeType's `exec->top = 0` in `tt_size_run_prep`.  The storage area is still shared: what
+                  `fpgm` writes survives into `prep` (FreeType clears it in `tt_size_ready_bytecode`).
 
 Only DATA (`FtControl.Dat`) is shared with the FreeType model.
 -/
@@ -29,7 +29,7 @@ def skLimit (pointCount : Option Nat) (cvtLen : Nat) : Nat :=
   | none => 300 + 22 * cvtLen
 
 /-- the stack `prep` starts with, given the stack `fpgm` ended with -/
-def prepStack (fpgmFinal : List Int) : List Int := fpgmFinal
+def prepStack (_fpgmFinal : List Int) : List Int := []
 
 abbrev Dat := FtControl.Dat
 
@@ -106,8 +106,8 @@ def semSubset (op : Nat) (bytes : List Nat) (x : List Int × Dat) : Except Err (
       | .ok (p, vs) =>
         let i := asUsize p
         if i < d.xs.length then .ok (vs, { d with xs := d.xs.set i v }) else .error (.data E_POINT)
-  else if op = 0x4F then ret ((pop ped vs).map (·.2))
-  else if op = 0x7F ∨ op = 0x18 ∨ op = 0x19 ∨ op = 0x3D ∨ op = 0x4D ∨ op = 0x4E ∨ op = 0x7A ∨ op = 0x7C ∨ op = 0x7D then
+  else if op = 0x4F ∨ op = 0x7F then ret ((pop ped vs).map (·.2))
+  else if op = 0x18 ∨ op = 0x19 ∨ op = 0x3D ∨ op = 0x4D ∨ op = 0x4E ∨ op = 0x7A ∨ op = 0x7C ∨ op = 0x7D then
     .ok (vs, d)
   else .error (.data (1000 + op))   -- not in the subset: the driver answers `tainted`
 
